@@ -828,7 +828,14 @@ func batchCase(ctx *Ctx, r *bReq, origin string) {
 		impl = renderResp(resp, st)
 		c09Oracle(ctx, line, r, resp, st)
 	}
-	ctx.Add(line, impl, len(r.items) > 1, "C09,C15")
+	ctx.Add(line, impl, len(r.items) > 1, "C09")
+	// C15 is concerned with what the handlers read only: a line of its own, so that a change of result
+	// reasons, versions or counts (C09's business) is not reported against C15
+	obs := "ok obs=" + renderObs(st.obs)
+	if p != "" {
+		obs = "panic " + panicKey(p)
+	}
+	ctx.Add("place.obs "+r.encode(), obs, len(st.obs) > 0, "C15")
 	if origin != "" {
 		ctx.Res.Count("batch." + origin)
 		ctx.Res.Count(fmt.Sprintf("batch.len=%d", min(len(r.items), 8)))
